@@ -431,8 +431,7 @@ def replay_and_validate(run, vh, behaviours, label, allowed, stats):
         kind = (r.get("invariant"), ev.get("a"))
         stats["rejected"][kind] = stats["rejected"].get(kind, 0) + 1
         if stats["rejected"][kind] > MAX_REPORTED:
-            run.log("further rejection (%s by %s) of case %s not reported separately" % (kind[0], kind[1], b.get("id")))
-            continue
+            continue            # counted in rejections_by_kind, not written out one by one
         case = (b.get("cases") or [{}] * (ev.get("i", 0) + 1))[ev.get("i", 0)]
         shown = {k: ev.get(k) for k in ("in", "raw", "inhtml", "intext", "rawhtml", "rawtext", "err", "panic", "status") if ev.get(k) not in (None, "")}
         what = "C18 %s violated by %s of case %s %s (spelling %s): %s" % (
@@ -465,6 +464,8 @@ def finish_stats(run, stats, allowed):
                      % (stats["text_js_anchors"], json.dumps(stats["text_js_samples"][:1])))
     run.cov["observations_outside_contract"] = notes
     run.cov["rejections_by_kind"] = {"%s/%s" % k: v for k, v in stats["rejected"].items()}
+    if stats["rejected"]:
+        run.log("rejections by kind (at most %d of a kind are written out as replay files): %s" % (MAX_REPORTED, run.cov["rejections_by_kind"]))
     for n in notes:
         run.log("NOTE (not a verdict): " + n)
 
@@ -499,7 +500,7 @@ def c18(run, args):
 
     # stage 3: bounded-exhaustive enumeration of the three abstract languages
     css = run.generate("GenSanitize", gen_cfg(allowed, "css", CSS_ALL, 3 if quick else 4, 0, True), workers=8)
-    css_core = run.generate("GenSanitize", gen_cfg(allowed, "css", CSS_CORE, 4 if quick else 6, 0, True), workers=8)
+    css_core = run.generate("GenSanitize", gen_cfg(allowed, "css", CSS_CORE, 5 if quick else 6, 0, True), workers=8)
     seen = {tuple(s) for s in css}
     css += [s for s in css_core if tuple(s) not in seen]
     docs = run.generate("GenSanitize", gen_cfg(allowed, "html", NODE_ALL, 2 if quick else 3, 2, True), workers=8)
@@ -532,7 +533,7 @@ def c18(run, args):
         "NoScriptUrls, StylePropsAllowed, TextFullyEscaped, NeverFails on every observation.  evaluations = observations (calls of the real code); "
         "non-trivial = the INPUT's own projection carries something the property forbids (forbidden element, on* attribute, javascript: URL, property off the "
         "allow-list), or for text the rendering differs from the input (something was escaped, linked or broken); distinct = distinct input bytes"
-        % ((3, 4, 2, " plus 10 core classes with 3 nodes", 2, 4, 16) if quick else (4, 6, 3, "", 3, 5, 8)))
+        % ((3, 5, 2, " plus 10 core classes with 3 nodes", 2, 4, 16) if quick else (4, 6, 3, "", 3, 5, 8)))
     run.assumptions += [
         "exploration level: the class alphabets do not distinguish every byte pattern; a defect that needs a spelling outside the pools of checks/sanitize.py is out of reach",
         "the projection trusts golang.org/x/net/html's tree builder as the browser-like reading and the declaration-list parser of harness/cmd/vh/sanitize.go (CSS Syntax 3)",
